@@ -275,7 +275,9 @@ func genSetCmd(g *lsGen) {
 	}
 }
 
-var scorePool = []string{"0", "1", "1", "2", "2", "3", "-1", "1.5", "-2.25", "10", "inf", "-inf", "+inf", "1e3", "5", "5", "nan", "x", ""}
+// (the last eight need 16 or 17 significant digits to be reported exactly)
+var scorePool = []string{"0", "1", "1", "2", "2", "3", "-1", "1.5", "-2.25", "10", "inf", "-inf", "+inf", "1e3", "5", "5", "nan", "x", "",
+	"1700000000123457", "9007199254740991", "0.1", "0.2", "123456789.12345678", "-4503599627370497", "3.0000000000000004", "0.30000000000000004"}
 
 func genZSetCmd(g *lsGen) {
 	r := g.r
